@@ -132,6 +132,11 @@ def hand_written():
         [t([["r", 1]]), t([["r", 0]], entry=[["om", 1]])],
         [t([["r", 0]], ["not", ["has", 1]], entry=[["r", 1]]), t([["m", 1]]), t([["r", 2]])],
         [t([["m", 2]], ["not", ["has", 1]], entry=[["m", 1]]), t([["or", 1]]), t([["r", 0]])],
+        # the same through a ParSystem (its own Stager impl): the entry views must be part of what the stage remembers
+        [t([["r", 0]], entry=[["m", 1]], par=True), t([["m", 1]])],
+        [t([["r", 0]], entry=[["r", 1]], par=True), t([["m", 1]]), t([["r", 1]], par=True)],
+        [t([["m", 1]]), t([["r", 0]], entry=[["om", 1]], par=True)],
+        [t([["r", 0]], entry=[["or", 1]], par=True), t([["r", 2]]), t([["m", 1]], par=True)],
     ]
 
 
